@@ -29,3 +29,85 @@ Proof.
   - discriminate.
   - intros (b & Hb & _). discriminate.
 Qed.
+
+(* ---- one record: step = decode_value ; store ---- *)
+Lemma step_eq fuel' sc cd o p :
+  step fuel' sc cd o p =
+  match field_by_number cd (pnum p) with
+  | None => Ok (add_unk o (praw p))
+  | Some (i, f) =>
+      if negb (wire_type_fits f (pwt p)) then Ok (add_unk o (praw p))
+      else do value <- decode_value fuel' sc f p; store sc o i f value
+  end.
+Proof. destruct o. reflexivity. Qed.
+
+Lemma step_unknown fuel' sc cd o p :
+  is_unknown cd p = true -> step fuel' sc cd o p = Ok (add_unk o (praw p)).
+Proof.
+  intros H. rewrite step_eq. unfold is_unknown in H.
+  destruct (field_by_number cd (pnum p)) as [[i f]|]; [|reflexivity]. rewrite H. reflexivity.
+Qed.
+
+Lemma step_known fuel' sc cd o p :
+  is_unknown cd p = false ->
+  exists i f, field_by_number cd (pnum p) = Some (i, f) /\ wire_type_fits f (pwt p) = true /\
+              step fuel' sc cd o p = (do value <- decode_value fuel' sc f p; store sc o i f value).
+Proof.
+  intros H. rewrite step_eq. unfold is_unknown in H.
+  destruct (field_by_number cd (pnum p)) as [[i f]|]; [|discriminate].
+  exists i, f. apply negb_false_iff in H. rewrite H. repeat split.
+Qed.
+
+(* continuation-passing form = direct form *)
+Lemma step_k_bind {A} fuel' sc cd o p (k : obj -> result A) :
+  step_k fuel' sc cd o p k = (do o' <- step fuel' sc cd o p; k o').
+Proof.
+  unfold step, step_k. destruct o as [c raw sow unk cur].
+  destruct (field_by_number cd (pnum p)) as [[i f]|]; [|reflexivity].
+  destruct (negb (wire_type_fits f (pwt p))); [reflexivity|].
+  destruct (decode_value fuel' sc f p) as [value|e]; cbn [bind]; [|reflexivity].
+  destruct (getattr sc (Obj c raw sow unk cur) i) as [o' [cv|e]].
+  - destruct o' as [c' raw' sow' unk' cur'].
+    destruct (ptype_eqb (fty f) TMap).
+    + destruct value; try reflexivity. destruct cv; try reflexivity.
+      destruct (getattr sc o 0) as [? [?|?]]; try reflexivity.
+      destruct (getattr sc o 1) as [? [?|?]]; reflexivity.
+    + destruct cv; reflexivity.
+  - destruct (setattr sc (Obj c raw sow unk cur) i (default_of sc f)) as [c' raw' sow' unk' cur'].
+    destruct (ptype_eqb (fty f) TMap).
+    + destruct value; try reflexivity. destruct (default_of sc f); try reflexivity.
+      destruct (getattr sc o 0) as [? [?|?]]; try reflexivity.
+      destruct (getattr sc o 1) as [? [?|?]]; reflexivity.
+    + destruct (default_of sc f); reflexivity.
+Qed.
+
+(* ---- the loop (size = None) in direct form ---- *)
+Fixpoint run (fuel' : nat) (sc : schema) (cd : cdesc) (n : nat) (o : obj) (s : list byte) : result obj :=
+  match n with
+  | O => Err EFuel
+  | S n' =>
+      match s with
+      | [] => Ok o
+      | _ =>
+          do (num_wire, r, s1) <- load_varint s;
+          do (p, s2) <- load_field fuel' s1 num_wire r;
+          do o' <- step fuel' sc cd o p;
+          run fuel' sc cd n' o' s2
+      end
+  end.
+
+Lemma loopV_run fuel' sc cd : forall n o s read,
+  loopV fuel' sc None cd n o s read = (do o' <- run fuel' sc cd n o s; Ok (o', [])).
+Proof.
+  induction n as [|n IH]; intros o s read; [reflexivity|].
+  cbn [loopV run]. destruct s as [|b s]; [reflexivity|].
+  destruct (load_varint (b :: s)) as [[[nw r] s1]|]; cbn [bind]; [|reflexivity].
+  destruct (load_field fuel' s1 nw r) as [[p s2]|]; cbn [bind]; [|reflexivity].
+  rewrite step_k_bind. destruct (step fuel' sc cd o p) as [o'|]; cbn [bind]; [|reflexivity].
+  apply IH.
+Qed.
+
+Lemma load_run fuel' sc o s :
+  load (S fuel') sc o s None =
+  (do o' <- run fuel' sc (get_class sc (ocls o)) (S (length s)) (touch o) s; Ok (o', [])).
+Proof. destruct o as [c raw sow unk cur]. rewrite load_unfold, loopV_run. reflexivity. Qed.
